@@ -632,9 +632,10 @@ def dump_one(f: TextIO, data: IOData):
 
     # write run type, level of theory, and basis set name (all in uppercase)
     items = [getattr(data, item) or "NA" for item in ["run_type", "lot", "obasis_name"]]
-    if items[0] == "energy":
-        items[0] = "SP"
-    print(f"{items[0].upper():10s}{items[1].upper():30s}{items[2].upper():>33s}", file=f)
+    # Use the job names that the loader recognises, so the run type survives a reload.
+    run_types = {"energy": "SP", "opt": "FOpt", "scan": "Scan", "freq": "Freq"}
+    items[0] = run_types.get(items[0], items[0].upper())
+    print(f"{items[0]:10s}{items[1].upper():30s}{items[2].upper():>33s}", file=f)
 
     # write basic information
     _dump_integer_scalars("Number of atoms", data.natom, f)
